@@ -81,6 +81,12 @@ class C07(Prop):
     budgets = {"quick": 200, "thorough": 3000}
 
     def cases(self, rng: random.Random, tier: str) -> Iterable[dict]:
+        # whatever the seed: a FRESH wrapper (no rename history yet, possibly mapped) whose first rename is a parallel swap — the wrapper it
+        # was derived from must not change
+        for prefix in (["asNode", "swapInputs"], ["asNode", "mapOver", "swapInputs"], ["asNode", "swapOutputs"], ["asNode", "swapInputs", "swapInputs"]):
+            nodes = [{"name": "f0", "inputs": ["x", "y0"], "outputs": ["o0"], "defaults": {}},
+                     {"name": "f1", "inputs": ["o0", "y1"], "outputs": ["o1"], "defaults": {"y1": rng.randint(20, 29)} if rng.random() < 0.5 else {}}]
+            yield {"nodes": nodes, "n_ops": rng.randint(2, 4), "seed": rng.randint(0, 10**6), "prefix": prefix}
         while True:
             k = rng.randint(1, 3)
             nodes = []
@@ -269,6 +275,11 @@ class C07(Prop):
             choice = rng.choice(["withName", "withInputs", "withOutputs"] + (["mapOver", "wrap", "wrap"] if is_gn else []))
             if force is not None and is_gn:
                 choice = force
+            swap = None
+            if choice in ("swapInputs", "swapOutputs"):
+                swap, choice = choice, ("withInputs" if choice == "swapInputs" else "withOutputs")
+                if len(recv.inputs if choice == "withInputs" else recv.outputs) < 2:
+                    return None, None
             if choice == "wrap":
                 # a NEW graph around a nested-graph node (its inner bindings surface in the outer graph's spec)
                 name = f"outer{len(objs)}"
@@ -285,7 +296,7 @@ class C07(Prop):
                 free = [p for p in POOL + ["x", "o0", "o1", "o2", "y0", "y1"] + olds if p not in keep and p not in recv.outputs]
                 free = list(dict.fromkeys(free))
                 news = rng.sample(free, len(olds))
-                if len(recv.inputs) >= 2 and rng.random() < 0.35:
+                if len(recv.inputs) >= 2 and (swap or rng.random() < 0.35):
                     olds = rng.sample(list(recv.inputs), 2)      # a parallel swap of two current names
                     news = [olds[1], olds[0]]
                 pairs = [[o, n] for o, n in zip(olds, news) if o != n]
@@ -300,7 +311,7 @@ class C07(Prop):
                 free = [p for p in POOL + ["o0", "o1", "o2"] + olds if p not in keep and p not in recv.inputs]
                 free = list(dict.fromkeys(free))
                 news = rng.sample(free, len(olds))
-                if len(recv.outputs) >= 2 and rng.random() < 0.35:
+                if len(recv.outputs) >= 2 and (swap or rng.random() < 0.35):
                     olds = rng.sample(list(recv.outputs), 2)
                     news = [olds[1], olds[0]]
                 pairs = [[o, n] for o, n in zip(olds, news) if o != n]
